@@ -489,13 +489,71 @@ func c9templates() (valid [][2]string, mismatch []string) {
 	mm("func (t *T) M(a int) int {\n\treturn a\n}\n\n", "\tt := &T{}\n\tfmt.Println(t.M(1, 2))\n")
 	mm("func v(a int, b ...int) int {\n\treturn a\n}\n\n", "\tfmt.Println(v())\n")
 	mm(two, "\tf := two\n\tfmt.Println(f(1))\n")
+	// every wrong argument count for 0..3 fixed parameters with and without a variadic tail, 0..2 results, called as a
+	// function / method / function value, in four call contexts (a frame must never be filled from its caller's locals)
+	for fixed := 0; fixed <= 3; fixed++ {
+		for _, variadic := range []bool{false, true} {
+			for rets := 0; rets <= 2; rets++ {
+				for given := 0; given <= 5; given++ {
+					if given == fixed || (variadic && given > fixed) {
+						continue // a correct call
+					}
+					var ps, args []string
+					for i := 0; i < fixed; i++ {
+						ps = append(ps, fmt.Sprintf("p%d string", i))
+					}
+					if variadic {
+						ps = append(ps, "xs ...string")
+					}
+					for i := 0; i < given; i++ {
+						args = append(args, fmt.Sprintf("\"a%d\"", i))
+					}
+					sig := "(" + strings.Join(ps, ", ") + ")" + []string{"", " int", " (int, int)"}[rets]
+					ret := []string{"", "\treturn 1\n", "\treturn 1, 2\n"}[rets]
+					use := "\tfmt.Println(\"callee\""
+					for i := 0; i < fixed; i++ {
+						use += fmt.Sprintf(", p%d", i)
+					}
+					if variadic {
+						use += ", len(xs)"
+					}
+					use += ")\n"
+					for kind := 0; kind < 3; kind++ {
+						var decls, call string
+						al := strings.Join(args, ", ")
+						switch kind {
+						case 0:
+							decls = "func callee" + sig + " {\n" + use + ret + "}\n\n"
+							call = "callee(" + al + ")"
+						case 1:
+							decls = "func (t *T) Callee" + sig + " {\n" + use + ret + "}\n\nvar obj = &T{}\n\n"
+							call = "obj.Callee(" + al + ")"
+						case 2:
+							decls = "var fv = func" + sig + " {\n" + use + ret + "}\n\n"
+							call = "fv(" + al + ")"
+						}
+						// (a) statement in Main; (b) statement in a two-result function with live locals, itself called as a
+						// statement from a function with live locals; (c) value used (needs a result); (d) multi-assign
+						mm(decls, "\t"+call+"\n")
+						mm(decls+"func mid() (string, string) {\n\tl, m := \"L\", \"M\"\n\t"+call+"\n\treturn l, m\n}\n\nfunc top() {\n\tq, r := \"Q\", \"R\"\n\tmid()\n\tfmt.Println(q, r)\n}\n\n", "\ttop()\n")
+						if rets >= 1 {
+							mm(decls, "\tk := \"K\"\n\tv := "+call+"\n\tfmt.Println(k, v)\n")
+						}
+						if rets == 2 {
+							mm(decls, "\tk := \"K\"\n\tv, w := "+call+"\n\tfmt.Println(k, v, w)\n")
+						}
+					}
+				}
+			}
+		}
+	}
 	return
 }
 
 func c09run(r *report.Run) {
 	thorough := r.Tier == "thorough"
 	cfgs := c9configs(thorough)
-	r.Rule(fmt.Sprintf("call configurations = signatures (all up to arity %d over {int, byte, float64, string}, four rotated representatives for each larger arity up to 5) x variadic tail {none, ...int, ...string, ...float64} x {0, 1, 2 extra arguments, spread slice} x result count 0..3 x callee kind {function, method, function literal} x 8 call forms, constants as arguments and results so that adoption of the declared type shows (byte parameter 200 printed +100 must give 44); templates for the remaining types in every position, variadic slices kept by the callee, recursion depths 1..5000 through functions and methods, and 8 arity/result mismatches; non-trivial = configuration with at least one parameter or result", map[bool]int{false: 2, true: 3}[thorough]))
+	r.Rule(fmt.Sprintf("call configurations = signatures (all up to arity %d over {int, byte, float64, string}, four rotated representatives for each larger arity up to 5) x variadic tail {none, ...int, ...string, ...float64} x {0, 1, 2 extra arguments, spread slice} x result count 0..3 x callee kind {function, method, function literal} x 8 call forms, constants as arguments and results so that adoption of the declared type shows (byte parameter 200 printed +100 must give 44); templates for the remaining types in every position, variadic slices kept by the callee, recursion depths 1..5000 through functions and methods, 8 hand-written arity/result mismatches and every wrong argument count 0..5 for 0..3 fixed parameters x {no, variadic} tail x 0..2 results x {function, method, function value} x 4 call contexts (each must be an error and must not run the callee); all ordered pairs of 18 signatures as a definition followed by a redefinition (second Eval chunk / package reload), the new definition then called with constants, compared with a fresh VM; non-trivial = configuration with at least one parameter or result", map[bool]int{false: 2, true: 3}[thorough]))
 	r.Assume("expected output is what the generator planted; every Go-valid program of the run is also compiled and run by the Go toolchain", "f(g()) forwarding of a multi-value call into an argument list is outside the supported subset")
 	r.Set("configurations", len(cfgs))
 	cache := oracle.OpenCache("c09")
@@ -562,10 +620,11 @@ func c09run(r *report.Run) {
 		res := goat.RunMain(map[string]string{"t/t.go": src}, "t", "t.Main")
 		r.Eval(1)
 		r.Nontrivial(src)
-		if res.HostPanic != nil || res.Err == nil {
-			r.Fail(&report.Case{Kind: "mismatch", Key: src, Files: map[string]string{"t/t.go": src}, Want: "an error (wrong number of arguments or results)", Got: res.String()})
+		if res.HostPanic != nil || res.Err == nil || strings.Contains(res.Out, "callee") {
+			r.Fail(&report.Case{Kind: "mismatch", Key: src, Files: map[string]string{"t/t.go": src}, Want: "an error (wrong number of arguments or results), and the callee does not run", Got: res.String() + " output: " + res.Out})
 		}
 	}
+	c9redefine(r)
 	// Go toolchain validation
 	var progs []*oracle.Prog
 	var wants []string
@@ -596,7 +655,93 @@ func c09run(r *report.Run) {
 	r.Set("traces_validated_against_impl", validated)
 }
 
+// redefinition: a function defined with one signature and defined again with another (second Eval chunk, or a reload
+// of its package) must from then on deliver arguments and results by the NEW declared types.  Oracle: a fresh VM that
+// only ever saw the second definition (differential; the typed behaviour itself is Go-validated by the configurations).
+type c9def struct{ sig, body, call string }
+
+func c9defs() []c9def {
+	var out []c9def
+	for _, t := range []string{"int", "byte", "float64", "int8", "uint32"} {
+		out = append(out,
+			c9def{"(a " + t + ") " + t, "fmt.Println(a+100, a/3)\n\treturn 100", "r := f(100)\n\tfmt.Println(r+100, r/3)"},
+			c9def{"(xs ..." + t + ") " + t, "fmt.Println(len(xs), xs[0]+100, xs[0]/3)\n\treturn xs[0]", "r := f(100, 7)\n\tfmt.Println(r+100, r/3)"},
+			c9def{"(s string, xs ..." + t + ") (" + t + ", string)", "if len(xs) == 0 {\n\t\treturn 100, s\n\t}\n\treturn xs[len(xs)-1] / 3, s", "r, s := f(\"k\", 1, 100)\n\tq, _ := f(\"j\")\n\tfmt.Println(r+100, r/3, s, q+100, q/3)"},
+		)
+	}
+	out = append(out, c9def{"(a string) string", "return a + \"!\"", "fmt.Println(f(\"s\"))"}, c9def{"(xs ...string) int", "return len(xs)", "fmt.Println(f(\"s\", \"t\"), f())"}, c9def{"()", "fmt.Println(\"none\")", "f()"})
+	return out
+}
+
+func c9redefine(r *report.Run) {
+	defs := c9defs()
+	src := func(d c9def, pkg string) string {
+		return "package " + pkg + "\n\nimport \"fmt\"\n\nfunc f" + d.sig + " {\n\t" + d.body + "\n}\n\nfunc Use() {\n\t" + d.call + "\n}\n"
+	}
+	chunk := func(d c9def) string {
+		return "import \"fmt\"\nfunc f" + d.sig + " {\n\t" + d.body + "\n}\nfunc Use() {\n\t" + d.call + "\n}\n"
+	}
+	fresh := make([]string, len(defs))
+	for j, d := range defs {
+		res := goat.RunMain(map[string]string{"q/q.go": src(d, "q")}, "q", "q.Use")
+		fresh[j] = res.Out
+		if res.Failed() {
+			fresh[j] = res.String()
+			r.Fail(&report.Case{Kind: "redefine", Key: "fresh: " + src(d, "q"), Want: "runs", Got: fresh[j]})
+		}
+	}
+	type job struct{ i, j int }
+	var jobs []job
+	for i := range defs {
+		for j := range defs {
+			if i != j {
+				jobs = append(jobs, job{i, j})
+			}
+		}
+	}
+	par.Do(len(jobs), func(k int) {
+		i, j := jobs[k].i, jobs[k].j
+		for _, via := range []string{"Eval", "Load", "Eval, old one called first"} {
+			m := goat.New()
+			var r1, r2, r3 goat.Result
+			imports := map[string]string{}
+			switch via {
+			case "Load":
+				r1 = m.Load(goat.FS(map[string]string{"q/q.go": src(defs[i], "q")}), "q")
+				r2 = m.Load(goat.FS(map[string]string{"q/q.go": src(defs[j], "q")}), "q")
+				m.Out.Reset()
+				r3 = m.Call("q.Use", 0)
+			default:
+				r1 = m.Eval(nil, chunk(defs[i]), goatlang.WithEvalImports(imports))
+				if via != "Eval" {
+					m.Eval(nil, "Use()", goatlang.WithEvalImports(imports))
+				}
+				r2 = m.Eval(nil, chunk(defs[j]), goatlang.WithEvalImports(imports))
+				m.Out.Reset()
+				r3 = m.Eval(nil, "Use()", goatlang.WithEvalImports(imports))
+			}
+			r.Eval(1)
+			key := fmt.Sprintf("func f%s redefined as func f%s (%s), then %s", defs[i].sig, defs[j].sig, via, strings.ReplaceAll(defs[j].call, "\n\t", "; "))
+			r.Nontrivial(key)
+			got := m.Out.String()
+			if r1.Failed() || r2.Failed() || r3.Failed() {
+				got = "definition 1: " + r1.String() + "; definition 2: " + r2.String() + "; call: " + r3.String()
+			}
+			if got != fresh[j] {
+				r.Fail(&report.Case{Kind: "redefine", Key: key, Want: fresh[j], Got: got})
+			}
+			m.Close()
+		}
+	})
+}
+
 func c09rerun(c *report.Case) (bool, string) {
+	switch c.Kind {
+	case "redefine":
+		rr := report.New("C09", "quick")
+		c9redefine(rr)
+		return rr.Violations() > 0, fmt.Sprintf("%d failing cases in the redefinition family", rr.Violations())
+	}
 	switch c.Kind {
 	case "call":
 		var cfg c9cfg
@@ -626,7 +771,7 @@ func c09rerun(c *report.Case) (bool, string) {
 		}
 	case "mismatch":
 		res := goat.RunMain(c.Files, "t", "t.Main")
-		return res.HostPanic != nil || res.Err == nil, res.String()
+		return res.HostPanic != nil || res.Err == nil || strings.Contains(res.Out, "callee"), res.String() + " output: " + res.Out
 	}
 	return false, "unknown kind"
 }
